@@ -173,6 +173,7 @@ PROPS['C08'] = {
     'level_note': 'partial claim: the run loop cannot be called in isolation and a re-implementation would not be the real code',
 }
 PROPS['C14'] = {
+    'e2': True,
     'explanation': '(E1) every rejecting action of the assembler, from a symbolic table state: duplicate label / procedure, CALL of a non-procedure, jump to a data label, '
                    'OFFSET / byte / word operand on a code label or unknown name, INT other than 3/10h/21h, IN/OUT/LDS/LES/WAIT/ESC/LOCK/INTO/IRET, print range leaving 1 MiB: '
                    'Err and no line pushed.  (E2) families of invalid token shapes have no derivation in the assembler grammar.',
@@ -207,6 +208,33 @@ PROPS['C17'] = {
     'assumptions': ['print!/println! are shadowed by logging macros in the scratch copy (lib/gen.py); the argument expressions are the real ones'],
     'level_text': 'bounded model checking of value flow and range logic for every machine state and every range within the bound',
     'level_note': 'partial claim: values and ranges, not the final text; no prompt',
+}
+E2_TECH = ('SMT (z3) over the real LALRPOP grammars read back from the regenerated parsers: abstract shapes of every assembler line, emitted-text templates observed '
+           'by running the real assembler, inclusion / operand-and-constant preservation decided for all register, mnemonic and numeric choices; counterexamples replayed through the real parsers')
+PROPS['C10'] = {
+    'e2': True, 'engine': 'gram-smt', 'technique': E2_TECH,
+    'explanation': 'for every abstract line shape the assembler grammar derives (~530: every production alternative x addressing shape, registers / mnemonics / width keywords as '
+                   'class slots, constants as typed integer slots), the emitted data / code / print line is, for EVERY class element and EVERY constant of the typed range, a sentence '
+                   'of the downstream grammar it is destined for (data parser, interpreter, print reader); plus keyword hygiene between the lexers',
+    'bounds': 'one source line at a time (what a production emits does not depend on its neighbours); identifiers abstracted to the names of the tool prelude (data byte, data word, code label, procedure); macro-generated text re-enters through the same productions (expansion itself is C13)',
+    'outside': 'the Internal Error paths that depend on run-time tables are the E1 obligations of C04/C06/C08 (label kinds) -- composed, not re-decided here; white space / comments (lexer contract)',
+    'assumptions': ['emitted text of a shape is a substitution template over its operands (checked by two independent instantiations per shape run through the real assembler)',
+                    'source spelling -> emitted text of every class is the E1 spelling-table obligation (C11)',
+                    'downstream numeric leaves accept exactly the range of their Rust type (T::from_str_radix) -- read from the action signatures'],
+    'level_text': 'language inclusion between the real grammars decided by SMT over symbolic register / mnemonic choices and integer constants; every sat answer is replayed through the real Preprocessor -> Interpreter / DataParser',
+    'level_note': 'trusted: grammar comments emitted by LALRPOP, the template generalisation (validated natively), z3',
+}
+PROPS['C11'] = {
+    'e2': True, 'engine': 'gram-smt', 'technique': E2_TECH + '; plus E1 (Kani/CBMC) spelling-table harnesses',
+    'explanation': '(E2) for every assembler line shape: no instantiation is accepted downstream with a different operand order, a missing operand, or a constant that differs from the '
+                   'source constant modulo the source width (following the cast chain of the downstream numeric leaf); (E1) every source spelling of every mnemonic / register / keyword '
+                   'table (both cases, all synonyms) emits the lower-case spelling or its Intel synonym',
+    'bounds': 'one source line at a time; constants over their whole typed range; spelling tables exhaustively',
+    'outside': 'white space, line breaks and ;-comments (LALRPOP lexer / regex inside CMDDriver::run); the text -> value function of the assembler\'s own numeric leaves for hex/binary literals',
+    'backends': [(r'.*', ['sat', 'z3'])],
+    'assumptions': ['synonym table transcribed from the Intel manual (lib/gen.py SYNONYMS)', 'as C10'],
+    'level_text': 'operand-role and constant preservation across the text interface decided by SMT for all constants; case/synonym independence by exhaustive symbolic execution of the real table actions',
+    'level_note': 'trusted: as C10; first operand = destination in every interpreter production is established by the B-harnesses of C01/C02/C05',
 }
 
 NOT_APPLICABLE = {
